@@ -24,6 +24,7 @@ type Frame struct {
 	nilChecked map[ssa.Value]bool
 	resultNames []string
 	noSafety bool // inlined callee without a contract: its own safety is not the caller's obligation
+	loopEntry map[int]*State // state on (first) entry of loop k, for atloop(k, e)
 }
 
 type retRec struct {
@@ -657,6 +658,10 @@ func (fc *FuncCtx) enterLoop(fr *Frame, li *loopInfo, cur *State) *State {
 		}
 	}
 	pos := li.minPos
+	if fr.loopEntry == nil {
+		fr.loopEntry = map[int]*State{}
+	}
+	fr.loopEntry[li.ordinal] = cur.clone()
 	// init
 	for i, inv := range spec.Invariants {
 		ev := fc.newEnv(fr, cur, fr.entry)
